@@ -86,6 +86,7 @@ pub fn c04_case(bytes: &[u8], stats: &mut Stats, counting: bool, cfg: &GenConfig
         ROW_LIMIT * 2,
     );
     let plain_rows = match plain {
+        ExecOutcome::Budget => return Verdict::Discard("too-much-work".into()),
         ExecOutcome::Rows(r) => r,
         ExecOutcome::ArgError(_) => return Verdict::Discard("args-rejected(C12)".into()),
         ExecOutcome::Panic(..) => return Verdict::Discard("engine-panic(C09)".into()),
@@ -121,6 +122,7 @@ pub fn c04_case(bytes: &[u8], stats: &mut Stats, counting: bool, cfg: &GenConfig
         }
     }
     match out {
+        ExecOutcome::Budget => return Verdict::Discard("too-much-work".into()),
         ExecOutcome::Rows(rows) => {
             if rows == plain_rows {
                 return Verdict::Pass;
@@ -192,10 +194,10 @@ pub fn c04(ctx: &CheckCtx) -> i32 {
     );
     report.assume("the pruning adapter uses only what VertexInfo documents as binding (no first_edge / edges_with_name of non-mandatory edges)");
     report.assume("the main search ignores dynamic hints of properties that carry a `>=` filter with a tag (listed finding, pinned by the repo's own unit test); a second search includes them and tolerates exactly that attributed signature");
-    let cases = ctx.cases(40_000, 1_000_000);
+    let cases = ctx.cases(250_000, 3_000_000);
     let res = search(ctx, "c04", cases, WORLD_MIN_LEN, WORLD_MAX_LEN, |b, s, k| c04_case(b, s, k, &cfg, true));
     report.absorb(res, &|b| render_world_case(b, &cfg));
-    let cases = ctx.cases(20_000, 500_000);
+    let cases = ctx.cases(60_000, 800_000);
     let res = search(ctx, "c04-listed", cases, WORLD_MIN_LEN, WORLD_MAX_LEN, |b, s, k| {
         let mut scratch = Stats::default();
         let v = c04_case(b, &mut scratch, k, &cfg, false);
